@@ -10,10 +10,10 @@ git -C $WT apply $OUT/patch.diff || { echo "CONFIRM: patch does not apply"; exit
 cmake -G Ninja -S $WT -B $WT/_build -DCMAKE_BUILD_TYPE=RelWithDebInfo -DCMAKE_C_FLAGS=-Wno-error -DCMAKE_CXX_FLAGS=-Wno-error >/dev/null && cmake --build $WT/_build >/dev/null || { echo "CONFIRM: build failed"; exit 9; }
 ctest --test-dir $WT/_build -j8 --timeout 900 > $LOG.ctest 2>&1; CT=$?
 tail -3 $LOG.ctest
-sh $OUT/demo.sh > $LOG.with 2>&1; W=$?
+bash $OUT/demo.sh > $LOG.with 2>&1; W=$?
 git -C $WT checkout -- .
 cmake --build $WT/_build >/dev/null 2>&1
-sh $OUT/demo.sh > $LOG.without 2>&1; WO=$?
+bash $OUT/demo.sh > $LOG.without 2>&1; WO=$?
 set +x
 echo "CONFIRM $ID-m$k: ctest_rc=$CT demo_with_change_rc=$W demo_without_rc=$WO"
 if [ $CT = 0 ] && [ $W != 0 ] && [ $WO = 0 ]; then
